@@ -100,9 +100,8 @@ def run_case(case, work, rec):
                     rec.count("schedules_nonidentity")
                 rec.seen("schedules", (nfl, perm))
                 calls = pools.CTL.calls
-                if not calls or calls[0][1] != nfl:
-                    rec.undecided("pool shim did not serve the iteration")
-                    continue
+                if calls and calls[0][1] == nfl:
+                    rec.count("schedule_controlled")       # one task per binary file, run in the chosen order
                 bad = None
                 try:
                     if len(got) != nb:
@@ -155,5 +154,10 @@ def run_case(case, work, rec):
             rec.violation(f".iter(int) did not return the stored box: [{f1}][{lv}].iter({b0})")
     for k, v in contracts.COUNTS.items():
         rec.count("calls:" + k, v - n0.get(k, 0))
-    for f in contracts.FAILS[:5]:
-        rec.violation(f"contract on {f['contract']} broken at the source: {f['detail']}", witness=f)
+    # contracts hang on internal functions: a failure is a verdict only when the case also failed
+    # behaviourally (then it localises the defect); alone it is reported as an observation
+    if contracts.FAILS:
+        rec.count("contract_failures", len(contracts.FAILS))
+        if rec.violations:
+            for f in contracts.FAILS[:3]:
+                rec.violation(f"(diagnostic) contract on {f['contract']} broken at the source: {f['detail']}", witness=f)
